@@ -7,6 +7,7 @@ CONSTANTS
   RuleModel = "config"
   Fuse = FALSE
   ExtChoice = "one"
-  ReqChoice = "small"
+  ReqChoice = "smallpan"
+  TrChoice = "direct"
 VIEW MCView
-INVARIANTS TypeOK I1 I2 I3 I4 I5
+INVARIANTS TypeOK I0 I1 I2 I3 I4 I5 I6 I7
